@@ -264,4 +264,7 @@ func c16(r *Run) {
 			r.ob("C16.R4:ioWriter-reserves", "ioWriter.Write reserves through Malloc", wrFn, nil, false, "Malloc calls != 1", false)
 		}
 	}
+	// the stream reader's Peek/Next results are served from the LinkBuffer it fills: a block that Release gave back to the pool
+	// must not stay referenced by the buffer, or the next fill (which gets that block again) and the next Peek overwrite each other
+	r.borrow([]string{"C03.R2:no-reference-kept"}, "C03.R2", "C16.R5", func() { c03(r) })
 }
